@@ -4,6 +4,7 @@ import engine as E
 import zcklib as Z
 from props import filegen as FG
 from props import dlgen as DG
+from props import updgen as UG
 
 PROP = 'C05'
 MODULES = ['ZckModel.Props.C05', 'ZckModel.Props.C05Frag']
@@ -139,6 +140,11 @@ def gen_cases(tier, seed, ctx):
             hdrs, body = DG.respond(B, ranges, boundary=rnd.choice(BOUNDARIES))
             frag_family('wf-scanned/%s' % tag, z, bytes(t), '-', -1, hdrs, body, 'wf:' + ','.join('%d-%d' % r for r in ranges),
                         ['-', 'b1' if small else 'b113', 'b16384'] + [DG.cuts_for(rnd, len(body), 'k4') for _ in range(2)])
+    # histories: a transfer that stops in the middle (dropped connection), then zck_dl_reset and a complete response to a new
+    # request on the same contexts (UPDATE op with a drop; judged: every chunk ends valid, the target is the new file)
+    W = UG.Writer(ctx)
+    for op, kind in UG.drop_cases(rnd, W, tier, 120 if tier == 'quick' else 1200):
+        cases.append(E.Case('k%d' % len(cases), op, dict(kind=kind)))
     return cases
 
 def locate(B, ranges, body, file_off, hdrs, bnd):
@@ -158,6 +164,7 @@ def locate(B, ranges, body, file_off, hdrs, bnd):
 
 def project(impl, c):
     """the implementation's line without the logged libc answers"""
+    if c.op.startswith('UPDATE'): return UG.project(impl, c)
     return ' '.join(t for t in impl.split(' ') if not (t.startswith('rx=') or t.startswith('rc=')))
 
 def post(recs, ctx):
